@@ -143,7 +143,6 @@ PROBES = [
     ("compound-end-excludes-trailing-semicolon", "m", "if a:\n    b;\nc\n"),
     ("namedexpr-range-excludes-value-parentheses", "m", "(y := (x))\n"),
     ("argwithdefault-range-excludes-default", "m", "def f(a=1): pass\n"),
-    ("with-parenthesised-items-share-range", "m", "with (a, b): pass\n"),
     ("lambda-empty-arguments-range", "m", "lambda: 1\n"),
 ]
 
@@ -339,8 +338,6 @@ def _top_comma(text):
 def classify_struct(item):
     if item == "enclose:ArgWithDefault:default":
         return "argwithdefault-range-excludes-default"
-    if item in ("order:StmtWith:items", "order:StmtAsyncWith:items"):
-        return "with-parenthesised-items-share-range"
     return None
 
 
@@ -351,9 +348,6 @@ def classify_extent(item, node, parent, b):
         d = _sub_nodes(fd["def"])[0]
         if node[1] == d[1]:
             return "argwithdefault-range-excludes-default"
-    if kind == "WithItem" and not _sub_nodes(fd["optional_vars"]) and parent and \
-            sum(1 for it in dict(parent[2])["items"] if it[1] == node[1]) > 1:
-        return "with-parenthesised-items-share-range"
     if kind == "Arguments" and parent and parent[0] == "ExprLambda" and node[1] == parent[1]:
         return "lambda-empty-arguments-range"
     return None
@@ -1341,6 +1335,9 @@ def streams(ctx):
               "﻿x = 1\n", "x = (1 +\n  2)\n", "x = 1 + \\\n  2\n", "@d\ndef f(): pass\n", "@d\n@e(1)\nclass C: pass\n",
               "f'{x}' f'{y!r:>{w}}'\n", "x = 'a' 'b' \"c\"\n", "x = ('a'\n     'b')\n", "f(a, k=1, *b, **c)\n", "class C(a, k=1, *b, **c): pass\n",
               "def f(a, /, b, *c, d, **e): pass\n", "lambda a, *b: a\n", "with a as b, c: pass\n", "with (a as b, c as d): pass\n",
+              # repaired (with-items of a parenthesised list without `as` shared one range): regressions are violations
+              "with (a, b): pass\n", "with (a, b,): pass\n", "with ((a), b): pass\n", "with ( a ,\n  b ): pass\n", "with (a, b, c.d(e)): pass\n",
+              "async def f():\n async with (a, b): pass\n", "with (é, 'ü'): pass\n", "with (a): pass\n", "with (a,): pass\n", "with (a, b) as c: pass\n",
               "[x for x in y if z]\n", "{k: v for k, v in z}\n", "match x:\n case [1, *r] if r: pass\n case {'k': v, **o}: pass\n case C(a, b=1) | D(): pass\n",
               "try:\n a\nexcept E as e:\n b\nelse:\n c\nfinally:\n d\n", "async def f():\n async for x in y: await z\n async with a as b: pass\n",
               "x: int = 1\n", "x = yield\n", "def f():\n  return (yield x)\n", "a[1:2, ::3]\n", "from . import (a as b, c)\n", "import a.b as c, d\n",
